@@ -13,6 +13,7 @@ import time
 from .. import common
 from ..translate import specs as tr_specs
 from ..translate import specslex as tr_specslex
+from ..translate import specsfind as tr_specsfind
 
 PROP = "C18"
 MODULES = ["XpmVerif.Properties.C18", "XpmVerif.Properties.C18Parse", "XpmVerif.Properties.C18Lex", "XpmVerif.Properties.C18Find"]
@@ -20,9 +21,10 @@ GB = 10**9
 
 
 def prove(ctx):
-    msgs = [tr_specs.generate(common.REPO, common.LEAN), tr_specslex.generate(common.REPO, common.LEAN)]
+    msgs = [tr_specs.generate(common.REPO, common.LEAN), tr_specslex.generate(common.REPO, common.LEAN), tr_specsfind.generate(common.REPO, common.LEAN)]
     ctx.notes.append(f"translator: {msgs[0][1]}")
     ctx.notes.append(f"translator (terminals of parser.py): {msgs[1][1]}")
+    ctx.notes.append(f"translator (loops of LauncherRegistry.find / RequirementUnion.match): {msgs[2][1]}")
     ctx.extra_cov["translator_fallbacks"] = sum(1 for _, m in msgs if m.startswith("untranslated") or "reference model used" in m)
     common.check_proofs(ctx, MODULES, translate_msgs=msgs)
 
